@@ -82,12 +82,16 @@ func c11Batch(b, seq int) []map[string]any {
 		return []map[string]any{{"s": s, "t": "x"}}
 	case 5:
 		return []map[string]any{{"s": s, "p": "p", "n": 2, "t": "x", "pad": strings.Repeat("ab ", 64)}}
+	case 6:
+		// three rows of one partition: with a row limit of 3 this block fits behind no seed, while
+		// smaller blocks visited after it do (a skipped block in the middle of a bucket)
+		return []map[string]any{{"s": s, "p": "p", "n": 4, "t": "x"}, {"s": s, "p": "p", "n": 6, "t": "y"}, {"s": s, "p": "p", "n": 7, "t": "z"}}
 	default:
 		return []map[string]any{{"s": s, "p": "q", "n": 5, "t": "dup"}, {"s": s, "p": "q", "n": 5, "t": "dup"}, {"s": s, "p": "p", "n": uint64(1) << 63, "t": "big"}}
 	}
 }
 
-const c11Batches, c11Engines = 6, 5
+const c11Batches, c11Engines = 7, 5
 
 type c11op struct {
 	merge bool
